@@ -44,6 +44,37 @@ MUTANTS = [
     ("chi2-hardcoded-K", "gemclus/gemini/_fdivergences.py",
      "            chi2_gemini = np.sum(p_y_x*cluster_wise_estimates, axis=1).mean()",
      "            chi2_gemini = np.sum((p_y_x*cluster_wise_estimates)[:, :3], axis=1).mean()", ["C13", "C01"]),
+    ("prox-ascending-sort", "gemclus/sparse/_prox_grad.py", "u_abs_sorted = np.sort(np.abs(u), axis=1)[:, ::-1]",
+     "u_abs_sorted = np.sort(np.abs(u), axis=1)", ["C05"]),
+    ("prox-idx-ge", "gemclus/sparse/_prox_grad.py", "idx = np.sum(lower > w, axis=1, keepdims=True)",
+     "idx = np.sum(lower >= w, axis=1, keepdims=True)", ["C05"]),
+    ("prox-missing-denominator", "gemclus/sparse/_prox_grad.py", "x = np.maximum(1 - a_s / norm_v, 0) / (1 + s * M ** 2)",
+     "x = np.maximum(1 - a_s / norm_v, 0) / (1 + s * M)", ["C05"]),
+    ("grouplasso-rowwise-in-groups", "gemclus/sparse/_prox_grad.py",
+     "        group_W_star = linear_prox_grad(group_W.reshape((1, -1)), alpha)",
+     "        group_W_star = linear_prox_grad(group_W, alpha)", ["C05"]),
+    ("grouplasso-strict", "gemclus/sparse/_prox_grad.py",
+     "W_star = np.maximum(W_norms - alpha, 0) * W / np.where(W_norms == 0, 1, W_norms)",
+     "W_star = np.where(W_norms - alpha > 1e-9, W_norms - alpha, 1e-12) * W / np.where(W_norms == 0, 1, W_norms)", ["C05"]),
+    ("linear-skip-softmax-backprop", "gemclus/linear/_linear_geminis.py", "        W_grad = X.T @ tau_hat_grad\n",
+     "        W_grad = X.T @ (y_pred * gradient)\n", ["C03"]),
+    ("rim-penalty-factor", "gemclus/linear/_linear_geminis.py", "gradients[0] += self.reg * 2 * self.W_",
+     "gradients[0] += self.reg * self.W_", ["C03"]),
+    ("categorical-other-rows", "gemclus/nonparametric/_categorical_models.py", "return [-tau_hat_grad]",
+     "return [-tau_hat_grad[::-1]] if len(X) > 6 else [-tau_hat_grad]", ["C03"]),
+    ("douglas-wrong-inverse-order", "gemclus/tree/douglas.py", "cut_grad = cumsum_grad[np.argsort(self._all_orders[i])]",
+     "cut_grad = cumsum_grad[self._all_orders[i]]", ["C03"]),
+    ("mlp-b1-mean", "gemclus/mlp/_mlp_geminis.py", "b1_grad = backprop_grad.sum(0, keepdims=True)",
+     "b1_grad = backprop_grad.mean(0, keepdims=True)", ["C03"]),
+    ("mlcl-mustlink-sign", "gemclus/mlcl.py",
+     "                    gradient[idx0] -= factor * (y_pred[idx0] - y_pred[idx1])\n                    gradient[idx1] -= factor * (y_pred[idx1] - y_pred[idx0])",
+     "                    gradient[idx0] += factor * (y_pred[idx0] - y_pred[idx1])\n                    gradient[idx1] += factor * (y_pred[idx1] - y_pred[idx0])",
+     ["C03"]),
+    ("sparsemlp-skip-grad-scaled", "gemclus/sparse/_mlp_sparse.py", "W_skip_grad = X.T @ tau_hat_grad  # Gradient from the GEMINI objective",
+     "W_skip_grad = X.T @ tau_hat_grad / 2", ["C03"]),
+    ("kernelrim-penalty-batch-rows", "gemclus/linear/_linear_geminis.py",
+     "base_grads[0] += 2 * self.reg * np.dot(self._training_kernel, self.W_)",
+     "base_grads[0] += 2 * self.reg * np.dot(X, self.W_) if len(X) == len(self.W_) else 2 * self.reg * np.dot(self._training_kernel, self.W_)", ["C03"]),
 ]
 
 
@@ -57,6 +88,8 @@ def main():
         print("create the scratch worktree first: git -C /repo worktree add /tmp/wt-mut HEAD (+ copy _utils.cpp/.so)")
         return 2
     sh(f"git -C {WT} checkout -- .")
+    head = sh("git -C /repo rev-parse HEAD").stdout.strip()
+    sh(f"git -C {WT} checkout -q --detach {head}")
     missed = 0
     for name, rel, old, new, props in MUTANTS:
         if sel and not any(s in name for s in sel):
